@@ -24,7 +24,7 @@ func init() {
 		Rule{ID: "R09b", Doc: "Msg.Pack re-appends the popped OPT on every successful return (a response to an EDNS0 client keeps its OPT; shared with C09)", Floor: 14, AllVariants: true, Run: r09b},
 		Rule{ID: "R20g", Doc: "a raw record returned to its pool is reset completely: the OPT the proxy builds from a pooled record carries no stale TTL/flags (shared with C20)", Floor: 12, Run: r20g},
 		Rule{ID: "R12e", Doc: "PopEDNS0 is a correct swap-remove (no nil record left, nothing after the OPT dropped)", Floor: 5, AllVariants: true, Run: r12e},
-		Rule{ID: "R12f", Doc: "parameters named remoteAddr receive the peer address (ECS, client group, prefetch key)", Floor: 6, Run: r12f},
+		Rule{ID: "R12f", Doc: "parameters named remoteAddr receive the peer address (ECS, client group, prefetch key)", Floor: 4, Run: r12f},
 	)
 }
 
@@ -247,8 +247,31 @@ func r12d(c *core.Ctx) {
 			return
 		}
 		n++
-		c.Check(core.Expr(st.Val) == "router.makeEdns0ClientSubnetReqOpt(remoteAddr)", "ecs-data-source", st.Pos(), pr, "OPT data is exactly the ECS option built from the client address", core.Expr(st.Val))
-		c.Check(hasCond(b, "r.opt.ecsEnabled", true) && hasCond(b, "remoteAddr.IsValid()", true), "ecs-gated", st.Pos(), pr, "ECS is attached only when ECS is enabled and the client address is valid", condList(b))
+		// the data is makeEdns0ClientSubnetReqOpt(<the function's address parameter>), whatever that parameter is called
+		var addrPar *ssa.Parameter
+		for _, p := range pr.Params {
+			if p.Type().String() == "net/netip.Addr" {
+				addrPar = p
+			}
+		}
+		okSrc := false
+		if call, isCall := core.Strip(st.Val).(*ssa.Call); isCall && core.StaticCallee(call) == mk && addrPar != nil {
+			for _, o := range core.Origins(call.Call.Args[0], core.OriginOpts{}) {
+				okSrc = o == ssa.Value(addrPar)
+			}
+		}
+		c.Check(okSrc, "ecs-data-source", st.Pos(), pr, "OPT data is exactly the ECS option built from the client address", core.Expr(st.Val))
+		validGate := false
+		for _, cnd := range core.CondsAt(b) {
+			if call, isCall := cnd.Cond.(*ssa.Call); isCall && cnd.Val && strings.HasSuffix(core.CallName(call), "netip.Addr).IsValid") && addrPar != nil {
+				for _, o := range core.Origins(call.Call.Args[0], core.OriginOpts{}) {
+					if o == ssa.Value(addrPar) {
+						validGate = true
+					}
+				}
+			}
+		}
+		c.Check(hasCond(b, "r.opt.ecsEnabled", true) && validGate, "ecs-gated", st.Pos(), pr, "ECS is attached only when ECS is enabled and the client address is valid", condList(b))
 	})
 	if n != 1 {
 		c.Bad("ecs-data-stores", pr.Pos(), pr, "exactly one place sets the OPT data", fmt.Sprint(n))
